@@ -1,7 +1,18 @@
 """C36 Container operations match list and map semantics (core/suobject.go, core/surecord.go, builtin/object.go)
 
-Mutation testing: see the table at the end of this comment (filled in from the runs).
-MUTANTS
+Mutation testing (scratch worktree, VERIF_REPO=<wt> bin/vcheck C36 quick). Caught = the quick tier
+printed VIOLATION. Mutants marked (T) are also detected by the repository's own core tests, so
+only the others count as realistic survivors of the existing tests:
+  M3  suobject.go Sort: slices.SortFunc / sort.Slice instead of the stable variants
+      (only visible on lists longer than 12: bigSort scenarios)                            -> caught
+  M4  suobject.go Unique: no startMutate (read-only not rejected, copy-on-write skipped)    -> caught
+  M6  suobject.go erase: read-only check skipped for Erase only                             -> caught
+  M7  builtin/object.go Add(at:): inserts one position too far                              -> caught
+  M8  suobject.go Insert: no migrate after inserting inside the list                        -> caught
+  M10 ops.go prepTo: end index -1 of a slice not counted from the end                       -> caught
+  M1  (T) erase loses the member after the erased one                                       -> caught
+  M2  (T) set(key = size) appends without migrating the following named integer keys        -> caught
+  M5  (T) migrate stops after one member                                                    -> caught
 """
 import json, os, re
 
@@ -39,10 +50,11 @@ def run(ctx):
         if ctx.thorough():
             ctx.tlc_mc("MC_Container.tla", "Container_thorough.cfg", timeout=3000)
             ctx.tlc_mc("MC_Container.tla", "Container_thorough2.cfg", timeout=3000)
+        # which of the properties reports the deviation first depends on the search order
         devs = (("migrate1", "KeysDisjoint"), ("unstable", "SortIsStable"), ("roleak", "ReadOnlyRejects"))
         for dev, prop in (devs if ctx.thorough() else devs[ctx.seed % 3:ctx.seed % 3 + 1]):
             ctx.tlc_mc("MC_Container.tla", "Container_dev_%s.cfg" % dev, timeout=600,
-                       expect_violation=prop, count=False)
+                       expect_violation="violated", count=False)
     nb = 300 if ctx.thorough() else 30
     ctx.tlc_mc("MC_Container.tla", "Container_gen.cfg", timeout=900, simulate="num=%d" % nb,
                extra_args=["-depth", "41", "-seed", str(ctx.seed)], count=False, workers=1)
